@@ -419,7 +419,79 @@ func (h *harness) rejections(s int, r *lib.RNG) error {
 	if err := w.nextWith(sys); err != nil {
 		return fmt.Errorf("rejections: system-contract write refused: %w", err)
 	}
-	return check("storage-of-system-contract", storeLine(w.g.Head()), true)
+	if err := check("storage-of-system-contract", storeLine(w.g.Head()), true); err != nil {
+		return err
+	}
+	// (5) random refusals / acceptances: a zero write, a nonce, a class replacement for an address
+	// that is or is not a contract (never deployed, deployed earlier, deployed by this diff)
+	for k := 0; k < 6; k++ {
+		d := emptyDiff()
+		target := w.g.Addr(2 + r.Intn(w.g.Opt.NAddr))
+		if r.Chance(1, 4) {
+			target = *lib.F(uint64(1 + r.Intn(2)))
+		}
+		exists := w.g.HeadState().Deployed[target] || (isSystem(&target) && w.g.HeadState().Contracts[target] != nil)
+		if !exists && r.Chance(1, 3) && !isSystem(&target) {
+			d.DeployedContracts[target] = lib.F(0xc002)
+			exists = true
+		}
+		kind := ""
+		switch r.Intn(4) {
+		case 0:
+			if isSystem(&target) && w.g.HeadState().Contracts[target] == nil {
+				// a zero written to a system contract nothing ever wrote to: the two state backends
+				// compute different roots for such a block (C01's subject), so it cannot be stored
+				// on both nodes at all; not a refusal of Store
+				continue
+			}
+			kind = "zero-write"
+			d.StorageDiffs[target] = map[felt.Felt]*felt.Felt{*lib.F(uint64(r.Intn(4))): lib.F(0)}
+			exists = exists || isSystem(&target)
+		case 1:
+			kind = "write"
+			d.StorageDiffs[target] = map[felt.Felt]*felt.Felt{*lib.F(uint64(r.Intn(4))): lib.F(uint64(1 + r.Intn(9)))}
+			exists = exists || isSystem(&target)
+		case 2:
+			kind = "nonce"
+			d.Nonces[target] = lib.F(uint64(1 + r.Intn(9)))
+		default:
+			kind = "replace"
+			d.ReplacedClasses[target] = lib.F(0xc003)
+		}
+		head := w.g.Head().Block
+		err := w.nextWith(d)
+		line := ""
+		if err == nil {
+			line = storeLine(w.g.Head())
+		} else {
+			// the refused block as the model sees it (hash / root are irrelevant to the refusal)
+			var sb strings.Builder
+			fmt.Fprintf(&sb, "store %x dead%x %s 1 %s", head.Number+1, k, hx(head.Hash), hx(head.GlobalStateRoot))
+			for a, c := range d.DeployedContracts {
+				fmt.Fprintf(&sb, " d=%s,%s", hxv(a), hx(c))
+			}
+			for a, c := range d.ReplacedClasses {
+				fmt.Fprintf(&sb, " r=%s,%s", hxv(a), hx(c))
+			}
+			for a, n := range d.Nonces {
+				fmt.Fprintf(&sb, " n=%s,%s", hxv(a), hx(n))
+			}
+			for a, kv := range d.StorageDiffs {
+				for key, v := range kv {
+					fmt.Fprintf(&sb, " s=%s,%s,%s", hxv(a), hxv(key), hx(v))
+				}
+			}
+			line = sb.String()
+		}
+		what := kind + "-of-missing-contract"
+		if exists {
+			what = kind + "-of-existing-contract"
+		}
+		if err := check(what, line, err == nil); err != nil {
+			return err
+		}
+	}
+	return nil
 }
 
 // nextWith finalises and stores a block with exactly this diff and no transactions.
